@@ -21,7 +21,8 @@ Inductive prim :=
 | PrBool (b : bool)
 | PrStr (s : string)
 | PrFloat (hex : string)
-| PrNone.
+| PrNone
+| PrOther (tag repr : string).   (* bytes, complex, Ellipsis: the type name and the repr of the value *)
 
 (* the (fixed) comparison of shallow_match_main: same type and equal *)
 Definition prim_eqb (a b : prim) : bool :=
@@ -31,11 +32,12 @@ Definition prim_eqb (a b : prim) : bool :=
   | PrStr x, PrStr y => String.eqb x y
   | PrFloat x, PrFloat y => String.eqb x y
   | PrNone, PrNone => true
+  | PrOther t x, PrOther u y => String.eqb t u && String.eqb x y
   | _, _ => false
   end.
 
-(* one element of a field value: an AST node (a child), a primitive, or something else (bytes, complex, Ellipsis:
-   neither is_primitive nor an AST, never compared when on the pattern side) *)
+(* one element of a field value: an AST node (a child), a primitive, or something else (neither is_primitive nor an
+   AST, never compared when on the pattern side; no Python literal yields one) *)
 Inductive pv := PNode | PPrim (p : prim) | POpaque.
 
 Inductive fval := FvNone | FvOne (v : pv) | FvList (vs : list pv).
